@@ -76,7 +76,7 @@ def parse_posix(s):
 def main():
     limit = int(sys.argv[1]) if len(sys.argv) > 1 else 10**9
     keys = sorted(k for k in zoneinfo.available_timezones() if not k.startswith(("right/", "posix/")))[:limit]
-    ops, meta = [], []
+    ops, meta, lops, lmeta = [], [], [], []
     utc = datetime.timezone.utc
     lo, hi = datetime.datetime(1800, 1, 1, tzinfo=utc), datetime.datetime(2400, 1, 1, tzinfo=utc)
     epoch = datetime.datetime(1970, 1, 1, tzinfo=utc)
@@ -96,6 +96,13 @@ def main():
         qs = [q for q in qs if -5364662400 < q < 13569465600]       # 1800..2400
         ops.append(f"tzl.at types=[{tys}] trans=[{trs}] leaps=[] rule={rule} " + ",".join(map(str, qs)))
         meta.append((k, qs))
+        # wall-clock queries around every table transition: both images of the transition instant
+        offs = sorted(set(o for (o, _, _) in types))
+        lq = sorted(set(t + o + d for t in times for o in offs for d in (-3601, -2, -1, 0, 1, 2, 3601)))
+        lq = [q for q in lq if -5364662400 + 90000 < q < 13569465600 - 90000]
+        if lq:
+            lops.append(f"tzl.loc types=[{tys}] trans=[{trs}] leaps=[] rule={rule} " + ",".join(map(str, lq)))
+            lmeta.append((k, lq, times, idx, types))
     out = subprocess.run([DRV], input="\n".join(ops) + "\n", capture_output=True, text=True).stdout.split("\n")
     bad = n = 0
     for (k, qs), line in zip(meta, out):
@@ -111,6 +118,35 @@ def main():
             if got != f"o{want}":
                 bad += 1
                 if bad < 10: print("MISMATCH", k, q, "spec/model:", a, "zoneinfo:", want)
-    print(f"zone spec validation: {len(meta)} zones, {n} instants vs CPython zoneinfo, mismatches={bad}")
+    # ---- wall-clock classification (gaps, folds, order of the two candidates) vs zoneinfo's `fold` ----
+    lout = subprocess.run([DRV], input="\n".join(lops) + "\n", capture_output=True, text=True).stdout.split("\n")
+    nl = skipped = 0
+    naive_epoch = datetime.datetime(1970, 1, 1)
+    for (k, lq, times, idx, types), line in zip(lmeta, lout):
+        z = zoneinfo.ZoneInfo(k)
+        ans = line.split(",")
+        if len(ans) != len(lq):
+            bad += 1; print("driver answer malformed for", k, line[:80]); continue
+        # the single boundary second that ends a skipped/repeated interval (T + previous offset) is excepted
+        prev = [types[0][0]] + [types[i][0] for i in idx[:-1]]
+        excepted = set(t + po for t, po in zip(times, prev))
+        for q, a in zip(lq, ans):
+            if q in excepted:
+                skipped += 1; continue
+            w = naive_epoch + datetime.timedelta(seconds=q)
+            cands = []
+            for fold in (0, 1):
+                o = w.replace(tzinfo=z, fold=fold).utcoffset()
+                t = (w - o).replace(tzinfo=utc)
+                back = t.astimezone(z)
+                if back.replace(tzinfo=None) == w:
+                    cands.append((int((t - epoch).total_seconds()), int(o.total_seconds())))
+            cands = sorted(set(cands))
+            want = "n" if not cands else (f"s{cands[0][1]}" if len(cands) == 1 else f"a{cands[0][1]}/{cands[1][1]}")
+            nl += 1
+            if a != want:
+                bad += 1
+                if bad < 12: print("WALL-CLOCK MISMATCH", k, q, "model:", a, "zoneinfo:", want)
+    print(f"zone spec validation: {len(meta)} zones, {n} instants and {nl} wall-clock times vs CPython zoneinfo ({skipped} excepted boundary seconds skipped), mismatches={bad}")
     sys.exit(1 if bad else 0)
 main()
